@@ -13,6 +13,7 @@ import json
 import os
 import struct
 import types
+import zlib
 
 import dns.edns
 import dns.exception
@@ -593,6 +594,101 @@ def fail(ctx, sig, what, c):
     ctx.fail(sig, what, {"kind": c["kind"], "case": c})
 
 
+def check_api_routes(ctx, c, m, key, origin, ms, w):
+    """second call sites / option values of the public API that must agree with the main route"""
+    salt = zlib.adler32(w)
+    # ---- to_wire(origin=…): an explicit origin wins over the message's own, and is all a message without one needs
+    if origin is not None and c["tsig"] is None:
+        keep = m.origin
+        try:
+            for own in (None, dns.name.Name([b"own", b"invalid", b""])):
+                m.origin = own
+                try:
+                    w2 = m.to_wire(origin=origin, max_size=ms, want_shuffle=False)
+                except Exception as e:  # noqa: BLE001
+                    w2 = type(e).__name__
+                if w2 != w:
+                    fail(ctx, "C03/to_wire/origin-argument", f"to_wire(origin=o) with message.origin={own} differs from the rendering with message.origin=o: "
+                         f"{w2 if isinstance(w2, str) else str(len(w2)) + ' octets'}", c)
+        finally:
+            m.origin = keep
+    # ---- use_edns(...) builds the same OPT state as the constructor route
+    if c["opt"] is not None:
+        o = c["opt"]
+        version = (o["ttl"] >> 16) & 0xFF
+        noise = (salt & 0xFF) << 16                     # junk in the version octet of the ednsflags argument
+        options = [dns.edns.option_from_wire(t, bytes.fromhex(b), 0, len(bytes.fromhex(b))) for t, b in o["options"]]
+        m3 = new_message(c["flags"], c["id"])
+        rp = [None, 0, 1400][salt % 3]
+        m3.use_edns(version, (o["ttl"] & 0xFF00FFFF) | noise, o["payload"], rp, options if options or salt % 2 else None, c["pad"])
+        exp = (int(o["ttl"]), o["payload"], tuple(options), o["payload"] if rp is None else rp, c["pad"])
+        got = (int(m3.ednsflags), int(m3.payload), tuple(m3.options), m3.request_payload, m3.pad)
+        if m3.opt is None or got != exp or m3.edns != version:
+            fail(ctx, "C03/use_edns/state", f"use_edns(edns={version}, ednsflags={(o['ttl'] & 0xFF00FFFF) | noise:#x}, payload={o['payload']}, request_payload={rp}) "
+                 f"-> (ednsflags, payload, options, request_payload, pad) = {got}, expected {exp}", c)
+        for off in (None, False, -1):
+            m3.use_edns(off)
+            if m3.opt is not None or m3.edns != -1 or m3.request_payload != 0:
+                fail(ctx, "C03/use_edns/off", f"use_edns({off}) leaves opt={m3.opt} edns={m3.edns} request_payload={m3.request_payload}", c)
+        m3.use_edns(True)
+        if m3.opt is None or m3.edns != 0 or int(m3.ednsflags) != 0 or tuple(m3.options) != ():
+            fail(ctx, "C03/use_edns/true", f"use_edns(True) -> edns={m3.edns} ednsflags={m3.ednsflags}", c)
+
+
+def check_reader_options(ctx, c, w, origin, key, m2):
+    """from_wire's question_only and raise_on_truncation agree with the plain parse `m2`"""
+    try:
+        mq = dns.message.from_wire(w, keyring=key, origin=origin, question_only=True)
+        if (mq.id, int(mq.flags)) != (m2.id, int(m2.flags)) or len(mq.question) != len(m2.question) or \
+                any(same_rrset(a, b, origin) for a, b in zip(m2.question, mq.question)) or mq.answer or mq.authority or mq.additional \
+                or mq.opt is not None or mq.tsig is not None:
+            fail(ctx, "C03/from_wire/question_only", "question_only=True does not return exactly header + question "
+                 f"({len(mq.question)}/{len(mq.answer)}/{len(mq.authority)}/{len(mq.additional)} rrsets, opt={mq.opt is not None})", c)
+    except Exception as e:  # noqa: BLE001
+        fail(ctx, "C03/from_wire/question_only", f"question_only=True raised {type(e).__name__}", c)
+    tc = bool(int(m2.flags) & 0x0200)
+    try:
+        mt = dns.message.from_wire(w, keyring=key, origin=origin, raise_on_truncation=True)
+        got = "returned"
+    except dns.message.Truncated as e:
+        mt, got = e.message(), "Truncated"
+    except Exception as e:  # noqa: BLE001
+        mt, got = None, type(e).__name__
+    if got != ("Truncated" if tc else "returned"):
+        fail(ctx, "C03/from_wire/raise_on_truncation", f"TC={tc}, raise_on_truncation=True: {got}", c)
+    elif mt is None or same_message(m2, mt, origin) is not None:
+        fail(ctx, "C03/from_wire/raise_on_truncation", "the message carried by Truncated / returned differs from the plain parse", c)
+
+
+def check_eq_discriminates(ctx, c, m, w, key):
+    """Message.__eq__ (an observe point) must also say *no*: header fields and every section, in both directions"""
+    _, m3 = parse(w, key=key)
+    if m3 is None or not (m3 == m):
+        return
+    def expect_ne(what):
+        if m3 == m or m == m3 or not (m3 != m):
+            fail(ctx, "C03/eq/too-lax", f"Message.__eq__ is true although {what}", c)
+    m3.id = (m3.id + 1) & 0xFFFF
+    expect_ne("the ids differ")
+    m3.id = m.id
+    m3.flags = dns.flags.Flag(int(m3.flags) ^ 0x0020)
+    expect_ne("the flags differ")
+    m3.flags = dns.flags.Flag(int(m.flags))
+    extra = dns.rrset.from_text("only-here.invalid.", 5, "IN", "A", "192.0.2.77")
+    for s in range(4):
+        sec = m3.sections[s]
+        if sec:
+            last = sec.pop()
+            if last not in sec:  # (sections compare as sets: a second copy of an equal rrset does not count)
+                expect_ne(f"section {s} lacks an rrset of the other")
+            sec.append(last)
+        sec.append(extra)
+        expect_ne(f"section {s} has an rrset the other lacks")
+        sec.pop()
+    if not (m3 == m):
+        fail(ctx, "C03/eq/too-strict", "Message.__eq__ false after undoing every change", c)
+
+
 def eval_msg(ctx: Ctx, c: dict):
     pin_time()
     m, key = mk_message(c)
@@ -623,6 +719,7 @@ def eval_msg(ctx: Ctx, c: dict):
     hdr = struct.unpack("!HHHH", w[4:12])
     if hdr != cnt:
         fail(ctx, "C03/to_wire/counts", f"header counts {hdr} vs section_count {cnt}", c)
+    check_api_routes(ctx, c, m, key, origin, ms, w)
     # ---- parse
     for orr in ([False, True] if c.get("also_orr") else [False]):
         pl, m2 = parse(w, origin=origin, orr=orr, key=key)
@@ -641,6 +738,9 @@ def eval_msg(ctx: Ctx, c: dict):
         d = same_message(m, m2, origin, ignore_padding_option=(c["pad"] != 0))
         if d:
             fail(ctx, "C03/parse_render/value-differs", f"parsed message differs from the original: {d}", c)
+        check_reader_options(ctx, c, w, origin, key, m2)
+        if not d and m2 == m and zlib.adler32(w) % 3 == 0:
+            check_eq_discriminates(ctx, c, m, w, key)
         elif origin is None and all(r.name.is_absolute() for s in m.sections for r in s):
             if not (m2 == m):
                 zc = int(m.sections[0][0].rdclass) if m.sections[0] else None
@@ -674,6 +774,28 @@ def eval_wire(ctx: Ctx, c: dict):
     ctx.count("wire." + (pl if m2 is None else "ok").replace("err ", ""))
     if pl.startswith("FOREIGN"):
         fail(ctx, "C03/from_wire/foreign-exception:" + pl.split(" ")[1], f"from_wire raised {pl}", c)
+    # raise_on_truncation: Truncated exactly when TC is set and the plain parse succeeds or fails with a FormError after the header
+    try:
+        dns.message.from_wire(w, origin=origin, one_rr_per_rrset=c["orr"], ignore_trailing=c["it"])
+        plain = None
+    except Exception as e:  # noqa: BLE001
+        plain = e
+    try:
+        dns.message.from_wire(w, origin=origin, one_rr_per_rrset=c["orr"], ignore_trailing=c["it"], raise_on_truncation=True)
+        got = "returned"
+    except dns.message.Truncated:
+        got = "Truncated"
+    except Exception as e:  # noqa: BLE001
+        got = type(e).__name__
+    tc = len(w) >= 12 and bool(w[2] & 0x02)
+    if plain is None:
+        want = "Truncated" if tc else "returned"
+    elif tc and isinstance(plain, dns.exception.FormError):
+        want = "Truncated"
+    else:
+        want = type(plain).__name__
+    if got != want:
+        fail(ctx, "C03/from_wire/raise_on_truncation", f"TC={tc}, plain parse {'ok' if plain is None else type(plain).__name__}: raise_on_truncation=True gives {got}, expected {want}", c)
     if m2 is not None and not c["it"] and not c["orr"]:
         # whatever parses must re-render to something that parses to the same message (fixed point)
         l2, w2 = render(m2, 65535)
@@ -722,14 +844,28 @@ def eval_steps(ctx: Ctx, c: dict):
     pin_time()
     m, _ = mk_message(c)
     ms = c["max_size"]
-    r = dns.renderer.Renderer(m.id, int(m.flags), ms, m.origin)
+    route, qdef, ctor, edns = c.get("route", "rrset"), c.get("q_default", False), c.get("ctor", "full"), c.get("edns")
+    if ctor == "defaults" and ms == 65535 and m.origin is None:
+        r = dns.renderer.Renderer(m.id, int(m.flags))          # max_size and origin left to their defaults
+    elif ctor == "keywords":
+        r = dns.renderer.Renderer(origin=m.origin, max_size=ms, flags=int(m.flags), id=m.id)
+    else:
+        r = dns.renderer.Renderer(m.id, int(m.flags), ms, m.origin)
     tr = []
     kept = [[], [], [], []]
+    stop = False
     for sec in range(4):
         for i, rr in enumerate(m.sections[sec]):
+            if stop:
+                break
             try:
                 if sec == 0:
-                    r.add_question(rr.name, rr.rdtype, rr.rdclass)
+                    if qdef and rr.rdclass == 1:
+                        r.add_question(rr.name, rr.rdtype)       # class left to its default (IN)
+                    else:
+                        r.add_question(rr.name, rr.rdtype, rr.rdclass)
+                elif route == "rdataset":
+                    r.add_rdataset(sec, rr.name, rr.to_rdataset(), want_shuffle=False, override_rdclass=rr.deleting)
                 else:
                     r.add_rrset(sec, rr, want_shuffle=False)
                 tr.append(f"ok:{r.output.tell()}:{len(r.compress)}")
@@ -737,12 +873,32 @@ def eval_steps(ctx: Ctx, c: dict):
             except dns.exception.TooBig:
                 tr.append(f"big:{r.output.tell()}:{len(r.compress)}")
                 ctx.count("steps.rollback")
+            except dns.name.NeedAbsoluteNameOrOrigin:
+                tr.append("err:NeedAbsoluteNameOrOrigin")
+                ctx.count("steps.need-absolute")
+                stop = True
+    ck = dict(c, sections=kept)
+    if c["opt"] is not None and edns is not None:
+        o = c["opt"]
+        options = [dns.edns.option_from_wire(t, bytes.fromhex(b), 0, len(bytes.fromhex(b))) for t, b in o["options"]]
+        try:
+            r.add_edns(edns, o["ttl"], o["payload"], options)
+            tr.append(f"opt:ok:{r.output.tell()}")
+            ck["opt"] = dict(o, ttl=(o["ttl"] & 0xFF00FFFF) | (edns << 16))   # RFC 6891: the version octet is `edns`
+            ctx.count("steps.add_edns")
+        except dns.exception.TooBig:
+            tr.append(f"opt:big:{r.output.tell()}")
+            ck["opt"] = None
+    else:
+        ck["opt"] = None
     r.write_header()
     w = r.get_wire()
     tbl = ";".join(f"{enc_labels(k.labels)}@{v}" for k, v in r.compress.items())
-    ctx.corr(f"c03.steps {ms} {msg_tokens(c)}", f"ok {' '.join(tr)} out={hx(w)} tbl={tbl}", c)
+    ctx.corr(f"c03.steps {ms} {'-' if edns is None else edns} {msg_tokens(c)}", f"ok {' '.join(tr)} out={hx(w)} tbl={tbl}", c)
     ctx.count("steps")
-    ck = dict(c, sections=kept)
+    ctx.count("steps.route." + route)
+    if stop:
+        return
     for clause, text in check_walk(ck, w):
         sig = {"pointer": "C03/renderer/compression/pointer-target", "name-differs": "C03/renderer/compression/name-differs",
                "undecodable": "C03/renderer/compression/undecodable", "counts": "C03/renderer/counts",
@@ -963,7 +1119,7 @@ def gen_options(rng):
         elif m == 1:
             o = dns.edns.CookieOption(rng.bytes(8), rng.choice([b"", rng.bytes(8), rng.bytes(32)]))
         elif m == 2:
-            o = dns.edns.ECSOption(rng.choice(["192.0.2.0", "10.1.2.0", "2001:db8::"]), rng.choice([16, 24, 32]), rng.choice([0, 8]))
+            o = dns.edns.ECSOption(rng.choice(["192.0.2.0", "10.1.2.0", "2001:db8::", "10.255.255.255"]), rng.choice([16, 24, 32, 9, 20, 31, 0]), rng.choice([0, 8]))
         elif m == 3:
             o = dns.edns.EDEOption(rng.choice([0, 1, 15, 22]), rng.choice([None, "x", "some text"]))
         elif m == 4:
@@ -1366,6 +1522,21 @@ def gen_rollback(rng, variant):
     T, _ = measure(True, False)
     ms = T + rng.below(4) if rng.chance(2, 3) else P + rng.below(bigsize)
     c["max_size"] = max(P, min(ms, P + bigsize - 1))
+    # the other public routes of the Renderer: add_rdataset, add_question's default class, constructor defaults/keywords, add_edns
+    c["route"] = rng.choice(["rrset", "rdataset"])
+    c["q_default"] = rng.chance(1, 2)
+    c["ctor"] = rng.choice(["full", "keywords", "defaults"])
+    if rng.chance(1, 3):
+        c["max_size"] = 65535
+    if rng.chance(1, 2):
+        c["edns"] = rng.choice([0, 0, 1, 2, 255])
+        c["opt"] = {"ttl": rng.choice([0, 0x8000, 0x00FF0000, 0x01020304, 0xFFFFFFFF, rng.below(2 ** 32)]), "payload": rng.choice([512, 1232, 4096, 65535]),
+                    "options": gen_options(rng)}
+    if origin is None and rng.chance(1, 12):
+        # a relative owner without an origin: NeedAbsoluteNameOrOrigin, whatever the constructor's default origin is
+        c["sections"][3].append(rr(hexl([b"relative"]), 1, [raw(4)]))
+        if rng.chance(2, 3):
+            c["ctor"], c["max_size"] = "defaults", 65535
     return c
 
 
@@ -1457,7 +1628,50 @@ def generate(ctx: Ctx, scale: int, rng):
         run_one(ctx, hc)
 
 
+KNOWN_OPTIONS = [
+    # (constructor, RFC wire form of the option data)
+    (lambda: dns.edns.ECSOption("192.0.2.0", 24, 0), "00011800c00002"),
+    (lambda: dns.edns.ECSOption("10.1.255.255", 20, 0), "000114000a01f0"),          # RFC 7871 §6: bits beyond the prefix are zero
+    (lambda: dns.edns.ECSOption("10.129.0.0", 9, 3), "000109030a80"),
+    (lambda: dns.edns.ECSOption("2001:db8:ffff::", 33, 0), "0002210020010db880"),
+    (lambda: dns.edns.ECSOption("2001:db8::", 32, 8), "0002200820010db8"),
+    (lambda: dns.edns.ECSOption("0.0.0.0", 0, 0), "00010000"),
+    (lambda: dns.edns.NSIDOption(b"abc"), "616263"),
+    (lambda: dns.edns.CookieOption(b"12345678", b"ABCDEFGH"), "31323334353637384142434445464748"),
+    (lambda: dns.edns.EDEOption(15, "x"), "000f78"),
+    (lambda: dns.edns.EDEOption(0, None), "0000"),
+    (lambda: dns.edns.GenericOption(65001, b"\x01\x02"), "0102"),
+]
+KNOWN_FLAGS = {"QR": 0x8000, "AA": 0x0400, "TC": 0x0200, "RD": 0x0100, "RA": 0x0080, "AD": 0x0020, "CD": 0x0010}
+
+
+def check_known_answers(ctx):
+    """RFC 1035 §4.1.1 / RFC 4035 / RFC 6891 / RFC 7871 constants the round trip cannot see (both directions share them)"""
+    c = {"kind": "consts"}
+    for name, v in KNOWN_FLAGS.items():
+        if int(getattr(dns.flags, name)) != v:
+            fail(ctx, "C03/flags/value", f"dns.flags.{name} = {int(getattr(dns.flags, name)):#06x}, RFC value {v:#06x}", c)
+        if dns.flags.to_text(v) != name or int(dns.flags.from_text(name)) != v:
+            fail(ctx, "C03/flags/text", f"flag {name}: to_text({v:#06x}) = {dns.flags.to_text(v)!r}, from_text = {int(dns.flags.from_text(name)):#06x}", c)
+    if int(dns.flags.DO) != 0x8000 or int(dns.flags.edns_from_text("DO")) != 0x8000:
+        fail(ctx, "C03/flags/value", "EDNS DO flag is not 0x8000", c)
+    for mk, hexw in KNOWN_OPTIONS:
+        try:
+            o = mk()
+            w = o.to_wire()
+            back = dns.edns.option_from_wire(int(o.otype), bytes.fromhex(hexw), 0, len(hexw) // 2)
+        except Exception as e:  # noqa: BLE001
+            fail(ctx, "C03/edns/option-wire", f"{hexw}: {type(e).__name__}", c)
+            continue
+        if w.hex() != hexw:
+            fail(ctx, "C03/edns/option-wire", f"{o!r} renders to {w.hex()}, RFC form {hexw}", c)
+        elif back.to_wire().hex() != hexw or back != o:
+            fail(ctx, "C03/edns/option-wire", f"{hexw} parses to {back!r}, which renders to {back.to_wire().hex()}", c)
+    ctx.count("known-answers")
+
+
 def run(ctx: Ctx):
+    check_known_answers(ctx)
     for p in sorted(glob.glob(os.path.join(VERIF, "corpus", "C03", "*.json"))):
         c = json.load(open(p))
         ctx.case(("corpus", p), sample=None)
